@@ -82,8 +82,11 @@ def gen_cases(rng, tier):
     m = gen_model(rng, i)
     sp = model_species(m)
     views = []
-    for _ in range(rng.randint(2, 5)):
-      views.append({"S": rng.sample(sp, rng.randint(1, len(sp))), "exclude": rng.random() < 0.5})
+    for k in range(rng.randint(2, 5)):
+      v = {"S": rng.sample(sp, rng.randint(1, len(sp))), "exclude": rng.random() < 0.5}
+      if k and rng.random() < 0.4:
+        v["parent"] = rng.randrange(k)     # a view of a view: the inner view stands in for the file
+      views.append(v)
     ops = []
     for _ in range(rng.randint(6, 20)):
       ops.append([rng.randrange(len(views)), rng.choice(["pair", "eam_embed", "eam_density"])])
@@ -239,15 +242,30 @@ def run_views(case, ctx):
 
   def make(i):
     v = specs[i]
-    views[i] = FilteredConfigParser(cp, exclude=v["S"]) if v["exclude"] else FilteredConfigParser(cp, include=v["S"])
+    base = cp
+    if v.get("parent") is not None:
+      if v["parent"] not in views:
+        make(v["parent"])
+      base = views[v["parent"]]
+      ctx.cls("stacked_view:%s_over_%s" % ("exclude" if v["exclude"] else "include", "exclude" if specs[v["parent"]]["exclude"] else "include"))
+    views[i] = FilteredConfigParser(base, exclude=v["S"]) if v["exclude"] else FilteredConfigParser(base, include=v["S"])
+
+  def chain(i):
+    out = [specs[i]]
+    while out[-1].get("parent") is not None:
+      out.append(specs[out[-1]["parent"]])
+    return out
 
   if not case["lazy"]:
     for i in pending:
-      make(i)
+      if i not in views:
+        make(i)
     pending = []
   for vi, attr in case["ops"]:
     while vi not in views:
-      make(pending.pop(0))
+      nxt = pending.pop(0)
+      if nxt not in views:
+        make(nxt)
     if m["type"] == "pair" and attr != "pair":
       attr = "pair"
     if attr == "eam_density" and fs:
@@ -260,7 +278,7 @@ def run_views(case, ctx):
       ctx.violation("view_exception", "%s raised %s %s" % (attr, et, e), what="view_exception")
       return
     key = {"pair": "pair", "eam_embed": "embed", "eam_density": "density", "eam_density_fs": "density"}[attr]
-    want = [tuple(ent[:-1]) for ent in m[key] if keep(ent[:-1], v["S"], v["exclude"])]
+    want = [tuple(ent[:-1]) for ent in m[key] if all(keep(ent[:-1], c["S"], c["exclude"]) for c in chain(vi))]
     have = [tuple(p.species) if not isinstance(p.species, str) else (p.species,) for p in got]
     ctx.count("view_reads")
     if want != have:
@@ -270,6 +288,29 @@ def run_views(case, ctx):
   ctx.count("view_contract_evaluations", _hook["evals"] - e0)
   for msg in _hook["failures"][f0:f0 + 2]:
     ctx.violation("view_contract", msg, what="view_contract")
+  # tabulating from a (possibly stacked) view == tabulating the file with the entries deleted by hand
+  from atsim.potentials.config import Configuration
+  from atsim.potentials.config._common import ConfigurationException
+  for vi in sorted(views)[-2:]:
+    edited = m
+    for c in chain(vi):
+      edited = edit_model(edited, c["S"], c["exclude"])[0]
+    want = run_api(emit.model_text(edited), None, None, False)
+    try:
+      out = routes.write_tab(Configuration().read_from_parser(views[vi]))
+      got = ("ok", out if isinstance(out, bytes) else out.encode())
+    except ConfigurationException as e:
+      got = ("config_error", str(e))
+    except Exception as e:
+      et, fn = exc_sig(e)
+      got = ("internal", "%s %s in %s" % (et, e, fn))
+    ctx.count("view_tabulations")
+    if got[0] != want[0] or (got[0] == "ok" and not same_output(m["target"], got[1], want[1])):
+      if not (want[0] == "internal" and got[0] == "internal"):
+        ctx.violation("view_tabulation", "view %d (chain %s): tabulation -> %s (%s), hand-deleted file -> %s (%s)" % (
+          vi, [("exclude" if c["exclude"] else "include", c["S"]) for c in chain(vi)], got[0], str(got[1])[:120] if got[0] != "ok" else "%d bytes" % len(got[1]),
+          want[0], str(want[1])[:120] if want[0] != "ok" else "%d bytes" % len(want[1])), what="view_tabulation")
+        return
   ctx.nontrivial(len(specs) >= 2)
 
 
